@@ -2,6 +2,7 @@ package props
 
 import (
 	"context"
+	"encoding/hex"
 	"fmt"
 	"strings"
 	"sync"
@@ -115,8 +116,21 @@ func c10World(r *world.Rng, steps int) C10World {
 	w.Regs = world.RandRegs(r)
 	for i := r.Intn(4); i > 0; i-- {
 		ev := world.Event{Kind: world.EvINT, Data: fmt.Sprintf("%02x", []uint8{0xc7, 0xff, 0xcf, 0x10, 0x82}[r.Intn(5)])}
-		if r.Chance(1, 3) {
+		switch r.Intn(6) {
+		case 0, 1:
 			ev = world.Event{Kind: world.EvNMI}
+		case 2:
+			// a device that puts some other instruction on the bus in mode 0: repeating block
+			// instructions (one element, then the program continues), read-modify-write, loads,
+			// prefixed forms, jumps; sometimes with bytes behind it
+			pool := [][]uint8{{0xed, 0xb0}, {0xed, 0xb8}, {0xed, 0xb1}, {0xed, 0xb2}, {0xed, 0xb3}, {0xed, 0xbb}, {0xed, 0xa0}, {0x34}, {0x35},
+				{0x32, 0x00, 0x90}, {0x3a, 0x00, 0x90}, {0xdd, 0x34, 0x05}, {0xfd, 0x21, 0x34, 0x12}, {0xc3, 0x00, 0x40}, {0xcd, 0x00, 0x40},
+				{0x18, 0x10}, {0x10, 0xfe}, {0xe5}, {0xe1}, {0xc9}, {0xe3}, {0xcb, 0xc6}, {0xdb, 0x10}, {0xd3, 0x10}, {0xed, 0x78}, {0xfb}, {0xf3}, {0x00}}
+			d := append([]uint8(nil), pool[r.Intn(len(pool))]...)
+			if r.Chance(1, 4) {
+				d = append(d, r.Bytes(r.Range(1, 3))...)
+			}
+			ev = world.Event{Kind: world.EvINT, Data: hex.EncodeToString(d)}
 		}
 		if r.Bool() {
 			ev.AtTick = uint64(r.Range(1, 3*steps))
@@ -200,7 +214,7 @@ func c10Machine(w *C10World) *world.Machine {
 	if w.NilIO {
 		m.CPU.IO = nil
 	}
-	return m
+	return m // (probe "world-without-io-device" is counted by the callers that own an Env)
 }
 
 // c10Sig is everything observable at a boundary (memory through the write hash).
@@ -274,6 +288,9 @@ func c10Restore(sc *C10Sc, env *Env) *Violation {
 			refMem = m.Bus.Mem
 			env.Steps += uint64(m.Steps)
 			env.Ticks += m.Bus.Tick
+			for k, v := range m.Raised {
+				env.FireN("raised/"+k, uint64(v))
+			}
 		} else if d := ref[w.Steps].diff(sigOf(m)); d != "" || refMem != m.Bus.Mem {
 			return viol("determinism", "second execution of the same scenario ends differently:%s", d)
 		}
@@ -470,6 +487,7 @@ func c10TypeTwin(w *C10World, env *Env) *Violation {
 	for _, kind := range kinds {
 		a := c10Machine(&w2)
 		b := c10Machine(&w2)
+		a.BoundaryOnly, b.BoundaryOnly = true, true // (only one of the two memories calls back)
 		var dm z80.DumbMemory
 		var mm z80.MapMemory
 		if kind == "DumbMemory" {
@@ -510,6 +528,7 @@ func c10TypeTwin(w *C10World, env *Env) *Violation {
 	{
 		a := c10Machine(&w2)
 		b := c10Machine(&w2)
+		a.BoundaryOnly, b.BoundaryOnly = true, true
 		pm := &plainMem{}
 		pm.b = a.Bus.Mem
 		pio := &plainIO{}
@@ -566,6 +585,9 @@ func c10Solo(w *C10World) (c10Sig, *[65536]uint8) {
 
 func c10Interleave(sc *C10Sc, env *Env) *Violation {
 	n := len(sc.Worlds)
+	if sc.Worlds[0].NilIO {
+		env.Fire("worlds-without-io-device")
+	}
 	solo := make([]c10Sig, n)
 	soloMem := make([]*[65536]uint8, n)
 	for i := range sc.Worlds {
@@ -686,6 +708,9 @@ var allAddrs = func() map[uint16]struct{} {
 // compared with the solo runs.
 func c10Free(sc *C10Sc, env *Env) *Violation {
 	n := len(sc.Worlds)
+	if sc.Worlds[0].NilIO {
+		env.Fire("worlds-without-io-device")
+	}
 	solo := make([]c10Sig, n)
 	got := make([]c10Sig, n)
 	// the concurrent phase comes first: anything the library initialises lazily must
